@@ -42,6 +42,7 @@ sim::Plan gen_plan(std::uint64_t seed, const std::string& prop, const std::strin
 sim::Result exec_plan(const sim::Plan& plan)
 {
     sim::arena_init();
+    sim::arena_reset();
     const std::string prop = plan.get("property");
     if(prop == "C06") return wire::exec_c06(plan);
     if(prop == "C10") return wire::exec_c10(plan);
